@@ -74,11 +74,16 @@ func sineLoop(period time.Duration, mean, amp int, offset float64) *paceLoop {
 
 // sineLoopPer: mean and amplitude in hits per `per` (rates whose interval is not a whole number of nanoseconds, or below one)
 func sineLoopPer(period time.Duration, mean, amp int, per time.Duration, offset float64) *paceLoop {
-	sp := vegeta.SinePacer{Period: period, Mean: vegeta.Rate{Freq: mean, Per: per}, Amp: vegeta.Rate{Freq: amp, Per: per}, StartAt: offset}
-	invalid := period <= 0 || mean <= 0 || amp >= mean
-	m, a, p := float64(mean)/float64(per), float64(amp)/float64(per), float64(period)
+	return sineLoopPers(period, mean, per, amp, per, offset)
+}
+
+// sineLoopPers: the mean and the amplitude are rates of their own, each with its own time unit
+func sineLoopPers(period time.Duration, mean int, per time.Duration, amp int, ampPer time.Duration, offset float64) *paceLoop {
+	sp := vegeta.SinePacer{Period: period, Mean: vegeta.Rate{Freq: mean, Per: per}, Amp: vegeta.Rate{Freq: amp, Per: ampPer}, StartAt: offset}
+	m, a, p := float64(mean)/float64(per), float64(amp)/float64(ampPer), float64(period)
+	invalid := period <= 0 || mean <= 0 || a >= m
 	kv := KV{"kind": "sine", "invalid": invalid, "unlimited": false, "qe4": int64(math.Ceil((m + math.Abs(a)) * 1e4)),
-		"text": fmt.Sprintf("Sine{period %s mean %d/%s amp %d/%s offset %.4f}", period, mean, per, amp, per, offset)}
+		"text": fmt.Sprintf("Sine{period %s mean %d/%s amp %d/%s offset %.4f}", period, mean, per, amp, ampPer, offset)}
 	pl := &paceLoop{kind: "sine", pacer: sp, reset: kv, schedule: func(t int64) float64 {
 		// H = M t + (A P / 2pi) (cos(O) - cos(O + 2 pi t / P))
 		return m*float64(t) + a*p/(2*math.Pi)*(math.Cos(offset)-math.Cos(offset+2*math.Pi*float64(t)/p))
@@ -259,6 +264,18 @@ func TestDrv_C01(t *testing.T) {
 			pl.always = true
 			loops = append(loops, pl)
 		}
+	}
+	// mean and amplitude given in different time units
+	for _, ma := range []struct {
+		mean   int
+		per    time.Duration
+		amp    int
+		ampPer time.Duration
+	}{{600, time.Minute, 9, time.Second}, {100, time.Second, 3000, time.Minute}, {5, 10 * time.Millisecond, 400, time.Second}, {30000, time.Minute, 2, 10 * time.Millisecond}} {
+		pl := sineLoopPers([]time.Duration{time.Second, 10 * time.Second}[r.Intn(2)], ma.mean, ma.per, ma.amp, ma.ampPer,
+			[]float64{vegeta.MeanUp, vegeta.Peak, vegeta.MeanDown, vegeta.Trough}[r.Intn(4)])
+		pl.always = true
+		loops = append(loops, pl)
 	}
 	for _, bad := range [][3]int{{0, 100, 90}, {60, 0, 90}, {60, 100, 110}, {-10, 100, 90}, {60, -10, 90}, {60, 100, 100}} {
 		loops = append(loops, sineLoop(time.Duration(bad[0])*time.Second, bad[1], bad[2], 0))
